@@ -577,6 +577,13 @@ impl TDigestMut {
         };
         check_non_nan(min, "min")?;
         check_non_nan(max, "max")?;
+        // counts are bounded by the input, never trusted for allocation
+        let value_size = if is_f32 { 4 } else { 8 };
+        if num_centroids.saturating_mul(2 * value_size) > cursor.remaining()
+            || num_buffered.saturating_mul(value_size) > cursor.remaining()
+        {
+            return Err(Error::insufficient_data("centroids"));
+        }
         let mut centroids = Vec::with_capacity(num_centroids);
         let mut centroids_weight = 0u64;
         for _ in 0..num_centroids {
@@ -594,7 +601,7 @@ impl TDigestMut {
             check_non_nan(mean, "centroid mean")?;
             check_finite(mean, "centroid")?;
             let weight = check_nonzero(weight, "centroid weight")?;
-            centroids_weight += weight.get();
+            centroids_weight = checked_total(centroids_weight, weight.get())?;
             centroids.push(Centroid { mean, weight });
         }
         let mut buffer = Vec::with_capacity(num_buffered);
@@ -612,6 +619,10 @@ impl TDigestMut {
             check_finite(value, "buffered_value mean")?;
             buffer.push(value);
         }
+        if buffer.len() as u64 > u64::MAX - centroids_weight {
+            return Err(Error::deserial("malformed data: total weight overflows"));
+        }
+        check_centroids(min, max, &centroids)?;
         Ok(TDigestMut::make(
             k,
             reverse_merge,
@@ -651,6 +662,12 @@ impl TDigestMut {
                 }
                 let num_centroids =
                     cursor.read_u32_be().map_err(make_error("num_centroids"))? as usize;
+                if num_centroids.saturating_mul(16) > cursor.remaining() {
+                    return Err(Error::insufficient_data_of(
+                        "compat double format",
+                        "centroids",
+                    ));
+                }
                 let mut total_weight = 0u64;
                 let mut centroids = Vec::with_capacity(num_centroids);
                 for _ in 0..num_centroids {
@@ -659,9 +676,10 @@ impl TDigestMut {
                     let weight = check_nonzero(weight, "centroid weight in compat double format")?;
                     check_non_nan(mean, "centroid mean in compat double format")?;
                     check_finite(mean, "centroid mean in compat double format")?;
-                    total_weight += weight.get();
+                    total_weight = checked_total(total_weight, weight.get())?;
                     centroids.push(Centroid { mean, weight });
                 }
+                check_centroids(min, max, &centroids)?;
                 Ok(TDigestMut::make(
                     k,
                     false,
@@ -701,9 +719,10 @@ impl TDigestMut {
                     let weight = check_nonzero(weight, "centroid weight in compat float format")?;
                     check_non_nan(mean, "centroid mean in compat float format")?;
                     check_finite(mean, "centroid mean in compat float format")?;
-                    total_weight += weight.get();
+                    total_weight = checked_total(total_weight, weight.get())?;
                     centroids.push(Centroid { mean, weight });
                 }
+                check_centroids(min, max, &centroids)?;
                 Ok(TDigestMut::make(
                     k,
                     false,
@@ -1325,6 +1344,33 @@ fn check_finite(value: f64, tag: &'static str) -> Result<(), Error> {
         )));
     }
 
+    Ok(())
+}
+
+fn checked_total(total: u64, weight: u64) -> Result<u64, Error> {
+    total
+        .checked_add(weight)
+        .ok_or_else(|| Error::deserial("malformed data: total weight overflows"))
+}
+
+/// The query paths (binary search by mean, tail interpolation) rely on ascending centroid means
+/// that lie between a finite min and max.
+fn check_centroids(min: f64, max: f64, centroids: &[Centroid]) -> Result<(), Error> {
+    if centroids.is_empty() {
+        return Ok(());
+    }
+    check_finite(min, "min")?;
+    check_finite(max, "max")?;
+    let ascending = centroids
+        .windows(2)
+        .all(|pair| pair[0].mean <= pair[1].mean);
+    let first = centroids[0].mean;
+    let last = centroids[centroids.len() - 1].mean;
+    if !ascending || min > first || last > max {
+        return Err(Error::deserial(
+            "malformed data: centroid means must ascend from min to max",
+        ));
+    }
     Ok(())
 }
 
